@@ -55,11 +55,12 @@ class WithSequenceItemMethod(AttrMethodDescriptor):
     ) -> Any:
         if not _if:
             return self
+        mutator = attr_spec.get_collection_mutator(self, inplace=_inplace)
         return mutate_attr(
             obj=self,
             attr=attr_spec.name,
             value=(
-                attr_spec.get_collection_mutator(self, inplace=_inplace)
+                mutator
                 .add_item(
                     item=_item,
                     attrs=attrs,
@@ -71,6 +72,7 @@ class WithSequenceItemMethod(AttrMethodDescriptor):
             ),
             inplace=_inplace,
             type_check=False,
+            on_error=mutator.restore,
         )
 
     def build_method(self) -> Callable:
@@ -161,11 +163,12 @@ class UpdateSequenceItemMethod(AttrMethodDescriptor):
     ) -> Any:
         if not _if:
             return self
+        mutator = attr_spec.get_collection_mutator(self, inplace=_inplace)
         return mutate_attr(
             obj=self,
             attr=attr_spec.name,
             value=(
-                attr_spec.get_collection_mutator(self, inplace=_inplace)
+                mutator
                 .add_item(
                     item=_new_item,
                     attrs=attrs,
@@ -177,6 +180,7 @@ class UpdateSequenceItemMethod(AttrMethodDescriptor):
             ),
             inplace=_inplace,
             type_check=False,
+            on_error=mutator.restore,
         )
 
     def build_method(self) -> Callable:
@@ -265,11 +269,12 @@ class TransformSequenceItemMethod(AttrMethodDescriptor):
     ) -> Any:
         if not _if:
             return self
+        mutator = attr_spec.get_collection_mutator(self, inplace=_inplace)
         return mutate_attr(
             obj=self,
             attr=attr_spec.name,
             value=(
-                attr_spec.get_collection_mutator(self, inplace=_inplace)
+                mutator
                 .transform_item(
                     value_or_index=_value_or_index,
                     transform=_transform,
@@ -280,6 +285,7 @@ class TransformSequenceItemMethod(AttrMethodDescriptor):
             ),
             inplace=_inplace,
             type_check=False,
+            on_error=mutator.restore,
         )
 
     def build_method(self) -> Callable:
@@ -365,11 +371,12 @@ class WithoutSequenceItemMethod(AttrMethodDescriptor):
     ) -> Any:
         if not _if:
             return self
+        mutator = attr_spec.get_collection_mutator(self, inplace=_inplace)
         return mutate_attr(
             obj=self,
             attr=attr_spec.name,
             value=(
-                attr_spec.get_collection_mutator(self, inplace=_inplace)
+                mutator
                 .remove_item(
                     value_or_index=_value_or_index,
                     by_index=_by_index,
@@ -378,6 +385,7 @@ class WithoutSequenceItemMethod(AttrMethodDescriptor):
             ),
             inplace=_inplace,
             type_check=False,
+            on_error=mutator.restore,
         )
 
     def build_method(self) -> Callable:
